@@ -22,6 +22,13 @@ def collect(u, rep):
             bid = im.item_id(meth)
             b = u.body(bid) if bid else None
             if b is None or b.thir is None:
+                # an impl that does not define the method inherits the trait's provided body, if there is one
+                ent = u.traits.get(trait)
+                if ent is not None:
+                    for it in ent[1]["items"]:
+                        if it["name"] == meth:
+                            b = u.body(ent[0].def_id(it["d"]))
+            if b is None or b.thir is None:
                 rep.add("EXTRACT", "%s:%s" % (kind, im.key()), "no body for %s of %s" % (meth, im.key()), im.loc())
                 continue
             try:
